@@ -695,7 +695,8 @@ class C02(PropertyCheck):
                 "anti_annular": ["C02.g_anti_annular", "C02.g_annular_family_real"],
                 "elliptical": ["C02.g_elliptical", "C02.g_elliptical_real"],
                 "elliptical_annular": ["C02.g_elliptical_annular", "C02.g_annular_family_real"],
-            }[case["ctor"]] + ["C02.g_code_form_eq_polynomial_form", "C02.g_offset_measured_from_mask_origin"]
+            }[case["ctor"]] + ["C02.g_code_form_eq_polynomial_form", "C02.g_code_form_eq_polynomial_form_of_contract",
+                                  "C02.g_offset_measured_from_mask_origin"]
         return {
             "geom": ["C02.a_centre_formula", "C02.b_centre_roundtrip", "C02.c_containment",
                      "C02.c_variants_agree", "C02.c_inside_extent_maps_to_containing_pixel",
